@@ -71,6 +71,9 @@ impl BitmapEvent {
                         rle_32_decompress(&self.data, self.width as u32, self.height as u32, &mut result)?;
                         result
                     } else {
+                        if self.data.len() != self.width as usize * self.height as usize * 4 {
+                            return Err(Error::RdpError(RdpError::new(RdpErrorKind::InvalidSize, "Invalid size for uncompressed bitmap")))
+                        }
                         self.data
                     }
                 )
@@ -82,11 +85,16 @@ impl BitmapEvent {
                     rle_16_decompress(&self.data, self.width as usize, self.height as usize, &mut result)?;
                     result
                 } else {
-                    let mut result = vec![0 as u16; self.width as usize * self.height as usize];
-                    for i in 0..self.height {
-                        for j in 0..self.width {
-                            let src = (((self.height - i - 1) * self.width + j) * 2) as usize;
-                            result[(i * self.width + j) as usize] = (self.data[src + 1] as u16) << 8 | self.data[src] as u16;
+                    let width = self.width as usize;
+                    let height = self.height as usize;
+                    if self.data.len() < width * height * 2 {
+                        return Err(Error::RdpError(RdpError::new(RdpErrorKind::InvalidSize, "Invalid size for uncompressed bitmap")))
+                    }
+                    let mut result = vec![0 as u16; width * height];
+                    for i in 0..height {
+                        for j in 0..width {
+                            let src = ((height - i - 1) * width + j) * 2;
+                            result[i * width + j] = (self.data[src + 1] as u16) << 8 | self.data[src] as u16;
                         }
                     }
                     result
